@@ -831,7 +831,38 @@ def c04_15(ctx):
     return out
 
 
+def c04_16(ctx):
+    """a witness stack survives serialise / parse whatever the size of its items (consensus bounds what a script may *use*, not what a
+    transaction may carry; the id and the bytes of such a transaction must still be reproducible): Witness.serialize and Witness.parse
+    evaluated on stacks with items of 0, 1, 75, 252, 253, 520, 521, 10000, 10001, 65535, 65536 and 70000 bytes -- bounded in the size"""
+    from sa.cells import ClassRef, Evaluator, FileStandIn, Obj, Raised, Undecided
+    spec_w, spec_r = "witness:Witness.serialize", "witness:Witness.parse"
+    mod, fn = rl.get(ctx, spec_r)
+    hooks = {("Witness", "__init__"): lambda o, items=None, *a, **k: o.attrs.update({"items": list(items or [])})}
+    try:
+        for size in (0, 1, 75, 252, 253, 520, 521, 10000, 10001, 65535, 65536, 70000):
+            ctx.count("cells")
+            items = [b"\x30" * 71, bytes([size & 0xFF]) * size]
+            me = Obj("witness", "Witness", {"items": list(items)})
+            try:
+                raw = Evaluator(ctx.repo, max_steps=400000).call(spec_w, [], self_obj=me)
+            except Raised as x:
+                return [ctx.bad(spec_w, "a witness with an item of %d bytes cannot be serialised (%s)" % (size, x.name), fn, mod, key="witness-roundtrip")]
+            st = FileStandIn(raw + b"REST")
+            try:
+                back = Evaluator(ctx.repo, method_hooks=hooks, max_steps=400000).call(spec_r, [st], self_obj=ClassRef("witness", "Witness"))
+            except Raised as x:
+                return [ctx.bad(spec_r, "a witness with an item of %d bytes, as Witness.serialize writes it, is refused by Witness.parse (%s): the transaction cannot be "
+                                        "parsed back, so neither its bytes nor its id are reproducible" % (size, x.name), fn, mod, key="witness-roundtrip")]
+            if not isinstance(back, Obj) or back.attrs.get("items") != items or st.pos != len(raw):
+                return [ctx.bad(spec_r, "parse(serialize(w)) differs from w for an item of %d bytes" % size, fn, mod, key="witness-roundtrip")]
+    except Undecided as u:
+        return [ctx.err(spec_r, "witness codec not evaluable: %s" % u, fn, mod)]
+    return [ctx.ok(spec_r, "parse(serialize(w)) = w for item sizes up to 70000 bytes (12 sizes around the compact-size and script limits)", fn, mod, key="witness-roundtrip")]
+
+
 OBLIGATIONS = [
+    ("C04.16", "CELLS witness round trip (bounded)", c04_16),
     ("C04.15", "RANGE accept-set", c04_15),
     ("C04.14", "SHARED", c04_14),
     ("C04.13", "SET-ORDER", c04_13),
